@@ -38,12 +38,32 @@ def tie_program(draw):
             lines += ["    def %s%s(%s)" % ("self." if draw(st.integers(0, 4)) == 0 else "", m, ", ".join("a%d" % i for i in range(np_))),
                       "      %s" % draw(st.sampled_from(["1", '"s"', "a0" if np_ else "nil", "1.5"])), "    end"]
         lines += ["  end", "end"]
+    # mixin chains: modules that include/extend other modules and are mixed into classes (several edges per node: ties in
+    # every walk and listing over the inheritance map)
+    mix = []
+    if draw(st.integers(0, 2)) == 0:
+        mix = ["Walk", "Swim", "Amph"][:draw(st.integers(2, 3))]
+        for i, mname in enumerate(mix):
+            lines.append("module %s" % mname)
+            for other in mix[:i]:
+                k = draw(st.integers(0, 3))
+                if k == 0:
+                    lines.append("  include %s" % other)
+                elif k == 1:
+                    lines.append("  extend %s" % other)
+            lines += ["  def %s_m" % mname.lower(), "    1", "  end", "end"]
     defined = []
     for c in draw(st.lists(st.sampled_from(cnames), min_size=1, max_size=3, unique=True)):
         parent = ""
         if defined and draw(st.booleans()):
             parent = " < " + draw(st.sampled_from(defined))
         lines.append("class %s%s" % (c, parent))
+        for mname in mix:
+            k = draw(st.integers(0, 3))
+            if k == 0:
+                lines.append("  include %s" % mname)
+            elif k == 1:
+                lines.append("  extend %s" % mname)
         for m in draw(st.lists(st.sampled_from(mnames), min_size=1, max_size=3, unique=True)):
             np_ = draw(st.integers(0, 2))
             body = draw(st.sampled_from(["1", '"s"', "a0" if np_ else "nil", "%s(%s)" % (draw(st.sampled_from(mnames)), "1")]))
@@ -60,7 +80,8 @@ def tie_program(draw):
                                            "Ma::%s.new.%s" % (c, m)])))
     lines += calls
     src = "\n".join(lines) + "\n"
-    return {"src": src, "classes": defined, "methods": mnames, "origin": "tie-program"}
+    # the modules come first: modes_for asks --extends / --llm-define for the first two names
+    return {"src": src, "classes": (list(reversed(mix)) + defined) if mix and draw(st.booleans()) else defined, "methods": mnames, "origin": "tie-program"}
 
 
 class Check(Prop):
@@ -68,7 +89,7 @@ class Check(Prop):
     WANT = ("ti",)
     SHARDS = 4
     RULE = ("cases = (program, output mode); programs: golden corpus programs, grammar-generated programs and programs built for ties "
-            "(equal method names in several classes, one class name in two namespaces, reopened classes, many call sites) and C10's narrowing programs (several variables narrowed in one conditional); modes: plain, "
+            "(equal method names in several classes, one class name in two namespaces, reopened classes, many call sites, modules that include/extend each other and are mixed into the classes) and C10's narrowing programs (several variables narrowed in one conditional); modes: plain, "
             "-i, --hover/--suggest/--define --row=N, --llm-nav, --llm-nav --all, --llm-nav --target=X, --llm-define, --llm-define "
             "--class=X, --llm-class, --extends --class=X. Each case is run k times (quick 4, thorough 8) on the real guard-off binary in "
             "separate processes, cycling GOMAXPROCS in {1,2,4,16} and GOGC in {off,1,100}; every process gets fresh map-iteration "
@@ -98,6 +119,21 @@ class Check(Prop):
             rows = [max(1, nl // 2), nl]
             for m in modes_for(p.text, classes, methods, rows):
                 yield {"src": p.text, "flags": m, "origin": "corpus:" + p.name}
+
+        # seed-independent: mixin chains (modules including/extending modules, mixed into classes) under the modes that list
+        # or walk the inheritance map, 10 runs each
+        chains = [
+            "module Walk\n  def walk\n    1\n  end\nend\nmodule Swim\n  def swim\n    2\n  end\nend\nmodule Amph\n  include Walk\n  extend Swim\n  def both\n    3\n  end\nend\n"
+            "class Frog\n  include Amph\nend\nclass Newt < Frog\n  extend Amph\n  include Swim\nend\nf = Frog.new\nf.walk\nf.both\nNewt.both\n",
+            "module Aa\n  def a\n    1\n  end\nend\nmodule Bb\n  include Aa\nend\nmodule Cc\n  include Bb\n  include Aa\nend\nclass Kk\n  include Cc\n  extend Bb\nend\nKk.new.a\nKk.a\n",
+        ]
+        for src in chains:
+            names = re.findall(r"(?m)^(?:module|class)\s+([A-Z]\w*)", src)
+            for nme in names:
+                yield {"src": src, "flags": ["--extends", "--class=%s" % nme], "origin": "mixin-chain", "k": 10}
+                yield {"src": src, "flags": ["--llm-define", "--class=%s" % nme], "origin": "mixin-chain", "k": 6}
+            for fl in (["--define", "--row=1"], ["--llm-class"], ["--llm-nav", "--all"], ["--suggest", "--row=%d" % src.count("\n")]):
+                yield {"src": src, "flags": fl, "origin": "mixin-chain", "k": 6}
 
     def strategy(self):
         progs = self.progs
@@ -143,7 +179,7 @@ class Check(Prop):
         fn = sb.write(src)
         outs = {}
         try:
-            for i in range(self.k):
+            for i in range(case.get("k") or self.k):
                 env = {"GOMAXPROCS": GOMAXPROCS[i % len(GOMAXPROCS)], "GOGC": GOGC[i % len(GOGC)]}
                 o = rt.runner.bb(sb.dir, fn, flags, env_extra=env)
                 if o.kind in ("timeout", "hard"):
@@ -164,7 +200,7 @@ class Check(Prop):
         la, lb = a.split("\n"), b.split("\n")
         idx = next((i for i in range(min(len(la), len(lb))) if la[i] != lb[i]), min(len(la), len(lb)))
         return Verdict({"what": "%d distinct outputs in %d runs with %s; first difference at line %d: %r vs %r" % (
-            len(outs), self.k, mode, idx + 1, la[idx:idx + 1], lb[idx:idx + 1]), "flags": flags, "inproc_is_truth": True,
+            len(outs), case.get("k") or self.k, mode, idx + 1, la[idx:idx + 1], lb[idx:idx + 1]), "flags": flags, "inproc_is_truth": True,
             "same_multiset": sorted(la) == sorted(lb), "mode": mode}, labels + ["diverge"], nontrivial, key)
 
     def matchers(self):
